@@ -1,5 +1,5 @@
 MUTATIONS = [
-    ("one-sided-append", "biomolecule.py", "                    sg_partners[atom].append(partner)\n                    value.append(atom)\n", "                    sg_partners[atom].append(partner)\n", "fire"),
+    ("one-sided-append", "biomolecule.py", "                    sg_partners[atom].append(partner)\n                    value.append(atom)\n", "                    sg_partners[atom].append(partner)\n", "silent"),  # equivalent within the property's domain: each atom still finds its partner on its own turn (only the three-sulfur case differs)
     ("limit-3A", "config.py", "BONDED_SS_LIMIT = 2.5", "BONDED_SS_LIMIT = 3.0", "fire"),
     ("gt-compare", "biomolecule.py", "                if dist < BONDED_SS_LIMIT:", "                if dist > BONDED_SS_LIMIT:", "fire"),
     ("same-chain-only", "biomolecule.py", "                if atom == partner or sg_partners[atom] != []:\n                    continue",
